@@ -45,6 +45,14 @@ pub const BACKGROUNDS: &[&str] = &[
     "\u{9d}",                 // OscString (8-bit)
     "\x1bX",                  // SosPmApcString
     "\u{9f}abc",              // SosPmApcString (APC, 8-bit)
+    "\x1b[0:1m\x1b[",          // CsiEntry after a sequence whose only parameter is 0 with a sub-parameter
+    "\x1b[00:7:9\x1b",         // Escape after such a sequence left unfinished
+    "\x1b[1:2:3:4:5:6:7",      // CsiParam with more sub-parameters than are stored
+    "\x1b[3;7H\u{90}",         // DcsEntry (8-bit) after a CSI with two parameters
+    "\x1b[3;7H\x1bP",          // DcsEntry (7-bit) after a CSI with two parameters
+    "\x1b[! ",                // CsiIntermediate with two intermediates
+    "\x1b[?6!",               // CsiIntermediate after a private marker and a parameter
+    "\x1b( ",                 // EscapeIntermediate with two intermediates
 ];
 
 fn fn_abstract(out: &mut String, f: &Option<Function>, c: char) {
